@@ -135,6 +135,33 @@ func c05r7(c *RC) {
 			split(ifs.Cond)
 		}
 		c.Check(keyHasSlice, fq+"|memo-key-names-the-slice", pr.Pos(lit.Pos()), "the memo key does not include the slice being compiled")
+		// the slice component is the slice being compiled *itself* (the
+		// parameter): a wrapper such as Prefixed changes the key prefix the
+		// producers hash by, so a key that sees through wrappers (Unwrap) makes
+		// two views with different prefixes share producer tasks
+		sliceParam := ""
+		for _, fld := range fn.Type.Params.List {
+			for _, nm := range fld.Names {
+				if o := pk.Info.Defs[nm]; o != nil && typeString(o.Type()) == "Slice" {
+					sliceParam = nm.Name
+				}
+			}
+		}
+		itself := false
+		for _, el := range lit.Elts {
+			v := el
+			if kv, ok := el.(*ast.KeyValueExpr); ok {
+				v = kv.Value
+			}
+			if t := pk.Info.TypeOf(v); t != nil && typeString(t) == "Slice" {
+				if id, ok := ast.Unparen(v).(*ast.Ident); ok && id.Name == sliceParam {
+					itself = true
+				}
+			}
+		}
+		if keyHasSlice {
+			c.Check(itself, fq+"|memo-key-is-the-slice-itself", pr.Pos(lit.Pos()), "the memo key identifies the compiled slice through an expression other than the slice parameter itself (e.g. bigslice.Unwrap): a Prefixed view and the slice it wraps, shuffled to the same width, then share one set of producer tasks, which hash by whichever view was compiled first — a shuffle keyed by one column is fed by producers that hashed two, and equal keys land in different shards")
+		}
 		var names []string
 		for i := 0; i < st.NumFields(); i++ {
 			names = append(names, st.Field(i).Name())
